@@ -129,7 +129,7 @@ def run(prop_id, modname, jobs_fn, meta, argv=None):
                 break
             if kf is None:
                 try:
-                    os.remove(path)
+                    os.replace(path, os.path.join(VERIF, "replays", "unconfirmed_" + os.path.basename(path)))
                 except OSError:
                     pass
         if ok:
